@@ -732,7 +732,19 @@ def main(out_dir):
             t.errors.append({'function': cname, 'error': 'class not found'})
             continue
         pairs = []
-        for c in reversed(t.mro(cname)):
+        # the _to_dict that runs for this class, and its parents' only as far as each one calls super()._to_dict()
+        chain = []
+        for c in t.mro(cname):
+            own = [b for b in t.classes[c][0].body if isinstance(b, ast.FunctionDef) and b.name == '_to_dict'] if c in t.classes else []
+            if not own:
+                continue
+            chain.append(c)
+            calls_super = any(isinstance(n, ast.Call) and isinstance(n.func, ast.Attribute) and n.func.attr == '_to_dict'
+                              and isinstance(n.func.value, ast.Call) and isinstance(n.func.value.func, ast.Name)
+                              and n.func.value.func.id == 'super' for n in ast.walk(own[0]))
+            if not calls_super:
+                break
+        for c in reversed(chain):
             for b in t.classes[c][0].body:
                 if isinstance(b, ast.FunctionDef) and b.name == '_to_dict':
                     for n in ast.walk(b):
